@@ -5,8 +5,8 @@ TRUSTED = [
     "ers.Stack / erc.Collector preserve the profile is C12's subject and is re-checked here on every error the real code produced",
     "network model primitives: the unbuffered pipe hand-off is one atomic step, context cancellation is one flag observed by ctx-guarded "
     "selects (either arm may fire once cancelled), fun.WaitGroup (C14) releases the resolver when every worker is done; Go scheduler fairness",
-    "Map's output channel and GenerateParallel's buffered pipe are not modelled (C01); GenerateParallel is read as the sub-system in which "
-    "LCheck;LTake;LHandoff are fused, so every run of it is a run of the modelled network",
+    "Model/WorkerNet.v refines the network per construct (Process / Map with output channel, closer and consumer / Generate without splitter and with its buffered pipe, "
+    "every worker's top-of-loop ctx test its own step); the consumer is modelled as always willing to receive",
     "the harness's user function makes items that start after an aborting failure wait for the group's context (10 s limit) so that the "
     "count of items started after the first failure is schedule-independent; goroutine identity is read from runtime.Stack",
 ]
@@ -16,10 +16,10 @@ ASSUMPTIONS = [
     "(implied by ContinueOnError+ContinueOnPanic when no failure is a bare io.EOF / context error: C03_continue_flags_continue)",
     "C03_classify_table: the failure is not a []error panic (known finding C03:ParsePanic:error-slice, C03_classify_table_refuted) and the "
     "case is well formed (the error's sentinel is listed in ExcludedErrors exactly for kind Excluded)",
-    "C03_abort_bound_partial: the bound is N + (items other workers finished between the failing function's return and its worker's cancel()); "
+    "C03_abort_bound (refined model, all three constructs): started-after-first-failure <= (N-1) + ctx tests other workers passed between the failing return and its cancel(); C03_abort_bound_prompt: <= N-1 when none did. C03_abort_bound_partial (coarser model): the bound is N + (items other workers finished between the failing function's return and its worker's cancel()); "
     "the property's plain 'N' needs that window to be empty (C03_abort_bound_atomic) and is otherwise refuted by a descheduled failing worker",
 ]
-EXPLANATION = ("24 theorems in coq/Props/C03.v. Decision table (Model/WorkerConf.v): CanContinueOnError transcribed arm by arm over errors.Is-profiles, "
+EXPLANATION = ("34 theorems in coq/Props/C03.v. Decision table (Model/WorkerConf.v): CanContinueOnError transcribed arm by arm over errors.Is-profiles, "
                "ParsePanic and the WithRecover wrappers; proved equal to the contract for all configurations (ExcludedErrors arbitrary) and all failure kinds (12 base kinds plus panics whose value is or wraps io.EOF / ErrIteratorSkip / ErrCurrentOpAbort / a context error, and returned errors wrapping ErrRecoveredPanic), "
                "with the []error panic refuted and characterised. Network (Model/WorkerGroup.v): splitter, pipe, N workers, cancel flag, logs, as an executable "
                "step function; invariants by induction over all reachable states: token conservation, result = reportable failures of the processed items, no "
@@ -35,10 +35,10 @@ LEVEL_TEXT = ("Machine-checked Coq theorems. Decision table FULL: for every Work
               "context errors iff IncludeContextExpirationErrors, excluded errors never recorded and never aborting) — except a []error panic (known finding, refuted + characterised). "
               "Worker network PARTIAL (all interleavings of the modelled atomic steps; any N, input, user function): no panic escapes a worker; token conservation; "
               "result nil iff no processed item had a reportable failure; in continue mode every terminated run processed each item exactly once and reports exactly the "
-              "reportable failures; in abort mode the failing worker takes no further item and items started after the first failure <= N + items finished by others "
-              "before its cancel() took effect (<= N when the cancel is atomic with the failure); after cancellation quiescence implies every process is done.")
+              "reportable failures; in abort mode the failing worker takes no further item and items started after the first failing function returned <= (N-1) + ctx tests passed by other "
+              "workers before its cancel() landed (<= N-1 when the cancel lands first; proved on the refined per-construct networks Process/Map/Generate); after cancellation quiescence implies every process is done.")
 LEVEL_NOTE = ("Network theorems are partial in DESIGN's sense: they quantify over interleavings of the modelled atomic steps; the channel hand-off's atomicity, "
-              "context cancellation and fun.WaitGroup are model primitives, Map's output channel / Generate's buffer are not modelled, and the real schedules are only "
+              "context cancellation and fun.WaitGroup are model primitives, the consumer of Map / Generate is modelled as always receiving, and the real schedules are only "
               "exercised by the harness (workers 1/2/4, single and double fault positions, all kinds and option bits). The property's plain bound 'NumWorkers' holds "
               "in the model only when cancel() follows the failing return before another worker finishes an item; otherwise the extra term is necessary (witness proved). "
               "Trusted: Coq kernel + vm_compute; hand-written model; errors.Is-profile abstraction of error values; Go drivers. "
